@@ -113,7 +113,7 @@ def index_readings(kind, M, rs, cs):
         # a nested array states its own orientation: with two indices given only that reading is accepted
         # (a position outside the missing dimension is outside the array); the single-index form on a nested
         # vector may be positional or mean "row k"
-        if cs == 'absent':
+        if cs in ('absent', 'omit', 'blank'):
             if R == 1:
                 rd.append(read2d([[v] for v in M[0]], r, c))
             elif C == 1:
@@ -469,8 +469,8 @@ def check_position(o, want, nested):
     if o[0] == 'v' and is_pos(o[1]) and int(o[1]) in want:
         return True
     if o[0] == 'e':
-        if nested:
-            return True
+        # a single-row / single-column range arrives as a nested list (that is how a host delivers ranges);
+        # MATCH must find the item there too
         return not want and o[1] == '#N/A'
     return False
 
@@ -516,7 +516,7 @@ class MatchExact(Sub):
                 f, ' with xv=%r' % (x,) if xdl == 'var' else '',
                 ' on %r' % (cells[a] if cells else items,) if dl != 'litc' and dl != 'lits' else '',
                 o, 'position %d' % p if p else '#N/A',
-                ' (or an error: nested vector)' if nested else ''), exp, o,
+                ''), exp, o,
                 case=['one', pool, items, dl, xdl, x])
         return None
 
@@ -580,7 +580,7 @@ class MatchSorted(Sub):
             return fail('%s%s on %r = %r, expected %s%s' % (
                 f, ' with xv=%r, xm=%d' % (x, mt) if xdl == 'var' else '', cells[a] if cells else items, o,
                 ('a position in %s (item %r)' % (sorted(want), best)) if want else '#N/A',
-                ' (or an error: nested vector)' if nested else ''),
+                ''),
                 ['v', sorted(want)] if want else ['e', '#N/A'], o,
                 case=['one', mt, items, dl, xdl, x])
         return None
@@ -632,12 +632,10 @@ class IndexMatch(Sub):
         if nested and isinstance(got, list) and len(got) == 1:
             got = got[0]
         ok = o[0] == 'v' and not isinstance(got, list) and equal0(x, got)
-        if not ok and nested and o[0] == 'e':
-            ok = True
         if not ok:
             return fail('%s%s on %r = %r, expected %r (x occurs in the array)%s' % (
                 f, ' with xv=%r' % (x,) if xdl == 'var' else '', cells[a] if cells else items, o, x,
-                ' (or an error: nested vector)' if nested else ''), ['v', x], o,
+                ''), ['v', x], o,
                 case=['one', pool, items, dl, xdl, x])
         return None
 
